@@ -434,6 +434,11 @@ func (persistComp) Gen(rng *rand.Rand, tier string) [][]string {
 			}
 			ks[j] = hx(keys[j])
 		}
+		if i%9 == 4 {
+			// the EMPTY key is a key like any other (every persister accepts it; the shard id provider routes it to shard 0)
+			keys[0] = []byte{}
+			ks[0] = hx(keys[0])
+		}
 		h := []string{fmt.Sprintf("begin persist kind=%s shards=%d batch=%d delay=%d keys=%s", kind, shards, batch, delay, strings.Join(ks, ","))}
 		n := steps
 		if withTick {
